@@ -15,6 +15,14 @@ theorem noNative_sound (cfg : Cfg) (g : List Stmt) (h : noNative cfg g = true) :
   unfold noNative offenders at h
   exact soundB cfg g _ _ _ (List.isEmpty_iff.mp h)
 
+/-- … and it rejects nothing that satisfies the property: the checker decides `NoNativeProp` exactly. -/
+theorem noNative_complete (cfg : Cfg) (g : List Stmt) (h : NoNativeProp cfg g) : noNative cfg g = true := by
+  unfold noNative offenders
+  exact List.isEmpty_iff.mpr (completeB cfg g _ _ _ h)
+
+theorem noNative_iff (cfg : Cfg) (g : List Stmt) : noNative cfg g = true ↔ NoNativeProp cfg g :=
+  ⟨noNative_sound cfg g, noNative_complete cfg g⟩
+
 theorem noNativeE_sound (cfg : Cfg) (e : Expr) (h : noNativeE cfg e = true) : OkE cfg [] false .normal e := by
   unfold noNativeE at h
   exact soundE cfg [] false e _ (List.isEmpty_iff.mp h)
